@@ -5,6 +5,8 @@ import (
 	"sort"
 	"strings"
 
+	z "github.com/Oudwins/zog"
+
 	"zogverif/internal/core"
 	"zogverif/internal/gen"
 	"zogverif/internal/obs"
@@ -27,6 +29,7 @@ func (c05) Info(t core.Tier) core.Info {
 		Level: "exploration",
 		Rule: "each case = one generated schema S with 1+ catching primitives (struct fields next to slice/ptr/struct/custom siblings, slice elements, behind pointers, top level) and its twin S' without the Catch calls, x 6 inputs x {Parse, Validate} x 3 rebuilds with permuted field order. " +
 			"oracle (no reference model): issues(S) == issues(S') minus the issues attributed to catching node instances (unique issue codes for their tests/required, path for coerce); a catching instance that failed in S' holds exactly its catch value in S, otherwise the same value as in S'; every other leaf is equal in S and S'. " +
+			"in addition, when the catch fired and no issue remains: S' on the input with valid values at the caught positions invokes exactly the same tests and post-transforms of all other nodes as S (a catch must not change what runs elsewhere). " +
 			"non-trivial: a catching instance failed in S' and another node also failed or holds a value; distinct by (schema, input, mode).",
 		Assumptions: commonAssumptions,
 		MinDistinct: 50,
@@ -65,7 +68,7 @@ func c05Schema(r *rng.Rand) *spec.Node {
 }
 
 // markCatching gives every issue a catching node can raise (tests, required) a unique code, so it can be attributed.
-func markCatching(n *spec.Node) {
+func markCatching(n *spec.Node, r *rng.Rand) {
 	seen := map[*spec.Node]bool{}
 	n.Walk(func(x *spec.Node) {
 		if seen[x] || !x.Kind.IsPrimitive() || !x.Eff().HasCatch {
@@ -74,8 +77,14 @@ func markCatching(n *spec.Node) {
 		seen[x] = true
 		for i := range x.Tests {
 			code := fmt.Sprintf("cc_%d_%d", x.ID, i)
-			x.Tests[i].Opts.Code = &code
 			x.Tests[i].Opts.Path = nil
+			if x.Tests[i].PredName != "probe" && r.Intn(5) == 0 {
+				// a test that files its issue elsewhere (IssuePath) is still a test of this node: code cp_<node>_<test>
+				code = fmt.Sprintf("cp_%d_%d", x.ID, i)
+				path := fmt.Sprintf("redirected_%d", x.ID)
+				x.Tests[i].Opts.Path = &path
+			}
+			x.Tests[i].Opts.Code = &code
 		}
 		for i := range x.Mods {
 			if x.Mods[i].Op == spec.MRequired {
@@ -112,7 +121,8 @@ func withoutCatch(n *spec.Node, memo map[*spec.Node]*spec.Node) *spec.Node {
 }
 
 type step struct {
-	field string
+	field string // Go field name ("#" = slice position)
+	key   string // key of the field in Parse input
 	index int
 	deref bool
 }
@@ -148,7 +158,7 @@ func catchInstances(n *spec.Node, mode ref.Mode, data any, val any, path string,
 			if rec != nil {
 				fd = rec[key]
 			}
-			catchInstances(f.Node, mode, fd, vm[f.GoName], p, cp(step{field: f.GoName}), out)
+			catchInstances(f.Node, mode, fd, vm[f.GoName], p, cp(step{field: f.GoName, key: key}), out)
 		}
 	case spec.Slice:
 		if mode == ref.Parse {
@@ -259,13 +269,156 @@ func mask(tree any, steps []step) any {
 	}
 }
 
+// substitute returns the tree with the value at steps replaced (copy-on-write). byKey: tree is Parse input (maps keyed by
+// data key, pointers transparent); otherwise a value tree (maps keyed by Go field name, PtrV for pointers). ok=false: the
+// position does not exist in this tree in that shape.
+func substitute(tree any, steps []step, v any, byKey bool) (any, bool) {
+	if len(steps) == 0 {
+		return v, true
+	}
+	s := steps[0]
+	switch {
+	case s.deref:
+		if byKey {
+			return substitute(tree, steps[1:], v, byKey)
+		}
+		p, ok := tree.(obs.PtrV)
+		if !ok || p.Nil {
+			return nil, false
+		}
+		in, ok := substitute(p.V, steps[1:], v, byKey)
+		return obs.PtrV{V: in}, ok
+	case s.field == "#":
+		sl, ok := tree.([]any)
+		if !ok || s.index >= len(sl) {
+			return nil, false
+		}
+		c := append([]any{}, sl...)
+		in, ok := substitute(sl[s.index], steps[1:], v, byKey)
+		c[s.index] = in
+		return c, ok
+	default:
+		m, ok := tree.(map[string]any)
+		if !ok {
+			return nil, false
+		}
+		k := s.field
+		if byKey {
+			k = s.key
+		}
+		if _, has := m[k]; !has {
+			return nil, false
+		}
+		c := map[string]any{}
+		for kk, vv := range m {
+			c[kk] = vv
+		}
+		in, ok := substitute(m[k], steps[1:], v, byKey)
+		c[k] = in
+		return c, ok
+	}
+}
+
+// eventRecorder counts the callbacks (tests, post-transforms) of every node that is not a catching primitive.
+type eventRecorder struct {
+	n        map[string]int
+	catching map[int]bool // node IDs of the catching primitives of S (the twin's nodes have the same IDs)
+}
+
+func (e *eventRecorder) hooks(r *rng.Rand) *spec.Hooks {
+	e.n = map[string]int{}
+	skip := func(n *spec.Node) bool { return e.catching[n.ID] }
+	return &spec.Hooks{
+		OnTest: func(n *spec.Node, t *spec.Test, val any, ctx z.Ctx) {
+			if !skip(n) {
+				e.n[fmt.Sprintf("test:%d:%s", n.ID, t.PredName)]++
+			}
+		},
+		OnPost: func(n *spec.Node, p *spec.Post, ptr any, ctx z.Ctx) {
+			if !skip(n) {
+				e.n[fmt.Sprintf("post:%d:%s", n.ID, p.Name)]++
+			}
+		},
+		FieldOrder: permutedOrder(r),
+	}
+}
+
+func (e *eventRecorder) list() []string {
+	var out []string
+	for k, v := range e.n {
+		out = append(out, fmt.Sprintf("%s x%d", k, v))
+	}
+	sort.Strings(out)
+	return out
+}
+
+// c05Succeeding: "as if the catching node were an ordinary node" when that ordinary node succeeds. S on the input (the catch
+// fires, no issue remains) against S' on the input in which every caught instance carries a valid value instead: both runs are
+// then issue-free, so every reached node runs all of its tests and post-transforms exactly once in both.
+func c05Succeeding(c *core.Ctx, S, Sp *spec.Node, mode ref.Mode, data, val any, insts []catchInst, failed map[string]bool) bool {
+	fixedData, fixedVal := data, val
+	for i := range insts {
+		in := &insts[i]
+		if !failed[in.path] {
+			continue
+		}
+		for _, t := range in.node.Tests {
+			if holds, known := ref.TestHolds(&t, in.node.Witness); !known || holds == t.Not {
+				return true // no valid value known for this node
+			}
+		}
+		var ok bool
+		if mode == ref.Parse {
+			fixedData, ok = substitute(fixedData, in.steps, in.node.Witness, true)
+		} else {
+			fixedVal, ok = substitute(fixedVal, in.steps, in.node.Witness, false)
+		}
+		if !ok {
+			return true
+		}
+	}
+	catching := map[int]bool{}
+	S.Walk(func(x *spec.Node) {
+		if x.Kind.IsPrimitive() && x.Eff().HasCatch {
+			catching[x.ID] = true
+		}
+	})
+	eS, eP := &eventRecorder{catching: catching}, &eventRecorder{catching: catching}
+	bS, bP := spec.Build(S, eS.hooks(c.R)), spec.Build(Sp, eP.hooks(c.R))
+	var oS, oP *run.Outcome
+	if mode == ref.Parse {
+		prior := gen.Prefill(c.R, S, false)
+		oS, oP = run.Parse(bS, data, prior), run.Parse(bP, fixedData, prior)
+	} else {
+		oS, oP = run.Validate(bS, val), run.Validate(bP, fixedVal)
+	}
+	c.Eval(2)
+	if oS.Panicked || oP.Panicked || !oS.NoIssues() || !oP.NoIssues() {
+		return true // not the situation this relation speaks about
+	}
+	a, b := eS.list(), eP.list()
+	if onlyS, onlyP := obs.MultisetDiff(a, b); len(onlyS) > 0 || len(onlyP) > 0 {
+		input, fixed := data, fixedData
+		if mode == ref.Validate {
+			input, fixed = val, fixedVal
+		}
+		c.Violation("catch-changed-callbacks-of-other-nodes|"+mode.String(), describeCase(S, mode, input, map[string]any{
+			"input_with_valid_values_at_caught_nodes":          obs.Render(obs.Norm(fixed)),
+			"callbacks_only_with_catch(kind:node:name xcount)": onlyS, "callbacks_only_with_ordinary_succeeding_node": onlyP,
+			"dest_with_catch": obs.Render(oS.Dest), "dest_ordinary": obs.Render(oP.Dest)}))
+		return false
+	}
+	c.Count("succeeding_twin_runs_compared", 1)
+	return true
+}
+
 func isCatchCode(code string) bool {
 	return strings.HasPrefix(code, "cc_") || strings.HasPrefix(code, "cr_")
 }
 
 func (c05) RunCase(c *core.Ctx) {
 	S := c05Schema(c.R)
-	markCatching(S)
+	markCatching(S, c.R)
 	Sp := withoutCatch(S, map[*spec.Node]*spec.Node{})
 	src := S.Source()
 	inOpts := gen.InOpts{ValidPct: 45, AbsentPct: 20, WrongPct: 18, AltRep: true}
@@ -310,8 +463,28 @@ func (c05) RunCase(c *core.Ctx) {
 				}
 				// attribute the issues of S'
 				failed := map[string]bool{}
+				maybeFailed := map[string]bool{}
 				var others []string
 				for _, ci := range oP.Issues {
+					if strings.HasPrefix(ci.Code, "cp_") {
+						// redirected issue: the path does not say which instance failed; exact when the node has one instance
+						var id, ti int
+						fmt.Sscanf(ci.Code, "cp_%d_%d", &id, &ti)
+						var of []*catchInst
+						for i := range insts {
+							if insts[i].node.ID == id {
+								of = append(of, &insts[i])
+							}
+						}
+						for _, in := range of {
+							if len(of) == 1 {
+								failed[in.path] = true
+							} else {
+								maybeFailed[in.path] = true
+							}
+						}
+						continue
+					}
 					if isCatchCode(ci.Code) {
 						failed[ci.Path] = true
 						continue
@@ -370,6 +543,8 @@ func (c05) RunCase(c *core.Ctx) {
 						if len(oP.Issues) > 1 || len(insts) > 1 || len(S.Fields) > 1 {
 							nontrivial = true
 						}
+					} else if maybeFailed[in.path] && obs.Equal(vS, catchV) {
+						// one of several instances of this node failed a redirected test: either outcome is consistent
 					} else if !obs.Equal(vS, vP) {
 						c.Violation("catch-applied-although-node-did-not-fail|"+mode.String(), detail(map[string]any{"node_path": in.path, "with_catch": obs.Render(vS), "without_catch": obs.Render(vP)}))
 						bad = true
@@ -385,6 +560,11 @@ func (c05) RunCase(c *core.Ctx) {
 					break
 				}
 				c.Count("catch_instances_failed", len(failed))
+				if rep == 0 && len(failed) > 0 && len(oS.Issues) == 0 {
+					if !c05Succeeding(c, S, Sp, mode, data, val, insts, failed) {
+						break
+					}
+				}
 			}
 			if nontrivial {
 				c.NonTrivial(fpf("%s|%s|%s", src, mode, obs.Render(obs.Norm(input))))
